@@ -521,33 +521,58 @@ func c10SortRows(rows [][]int64) {
 	})
 }
 
+// observe records the view of the running gater followed by the view of a
+// gater opened right now on the same datastore (the running one is kept): what
+// a restart at this moment would enforce.  The property's persistence sentence
+// makes the two agree after every call, whether it returned nil or an error.
 func (s *c10Sys) observe(probes []c10Probe) []int64 {
+	line := s.view(s.cg, probes, "")
+	re, err := NewBasicConnectionGater(s.ds)
+	if err != nil {
+		s.t.Fatalf("c10: opening a second gater on the datastore failed: %v", err)
+	}
+	rline := s.view(re, probes, "reopened.")
+	if len(line) == len(rline) {
+		same := true
+		for i := range line {
+			same = same && line[i] == rline[i]
+		}
+		if same {
+			s.out.Cover("gater.reopened-view.same-as-running")
+		} else {
+			s.out.Cover("gater.reopened-view.differs-from-running")
+		}
+	}
+	return append(line, rline...)
+}
+
+func (s *c10Sys) view(cg *BasicConnectionGater, probes []c10Probe, tag string) []int64 {
 	var line []int64
 	for _, p := range probes {
 		var allow bool
 		switch p.kind {
 		case 1:
-			allow = s.cg.InterceptPeerDial(c10Peer(p.p))
+			allow = cg.InterceptPeerDial(c10Peer(p.p))
 		case 2:
-			allow = s.cg.InterceptAddrDial(c10Peer(0), p.addr)
+			allow = cg.InterceptAddrDial(c10Peer(0), p.addr)
 		case 3:
-			allow = s.cg.InterceptAccept(&c10CMA{l: ma.StringCast("/ip4/127.0.0.1/tcp/1"), r: p.addr})
+			allow = cg.InterceptAccept(&c10CMA{l: ma.StringCast("/ip4/127.0.0.1/tcp/1"), r: p.addr})
 		case 4:
-			allow = s.cg.InterceptSecured(network.DirInbound, c10Peer(p.p), &c10CMA{})
+			allow = cg.InterceptSecured(network.DirInbound, c10Peer(p.p), &c10CMA{})
 		case 5:
-			allow = s.cg.InterceptSecured(network.DirOutbound, c10Peer(p.p), &c10CMA{})
+			allow = cg.InterceptSecured(network.DirOutbound, c10Peer(p.p), &c10CMA{})
 		}
 		if allow {
 			line = append(line, 1)
-			s.out.Cover(fmt.Sprintf("probe.kind%d.allowed", p.kind))
+			s.out.Cover(fmt.Sprintf("%sprobe.kind%d.allowed", tag, p.kind))
 		} else {
 			line = append(line, 0)
-			s.out.Cover(fmt.Sprintf("probe.kind%d.refused", p.kind))
+			s.out.Cover(fmt.Sprintf("%sprobe.kind%d.refused", tag, p.kind))
 		}
 	}
 	// ListBlockedPeers
 	var ps []int64
-	for _, id := range s.cg.ListBlockedPeers() {
+	for _, id := range cg.ListBlockedPeers() {
 		idx := int64(-1)
 		for i := 0; i < c10NPeers; i++ {
 			if c10Peer(i) == id {
@@ -561,7 +586,7 @@ func (s *c10Sys) observe(probes []c10Probe) []int64 {
 	line = append(line, ps...)
 	// ListBlockedAddrs
 	var rows [][]int64
-	for _, ip := range s.cg.ListBlockedAddrs() {
+	for _, ip := range cg.ListBlockedAddrs() {
 		rows = append(rows, c10EncIP(ip))
 	}
 	c10SortRows(rows)
@@ -571,7 +596,7 @@ func (s *c10Sys) observe(probes []c10Probe) []int64 {
 	}
 	// ListBlockedSubnets
 	rows = nil
-	for _, n := range s.cg.ListBlockedSubnets() {
+	for _, n := range cg.ListBlockedSubnets() {
 		rows = append(rows, c10EncNet(n))
 	}
 	c10SortRows(rows)
@@ -600,6 +625,9 @@ func c10RunCase(t *testing.T, out *verifh.Out, probes []c10Probe, calls []c10Cal
 		line = append(line, res)
 		line = append(line, s.observe(probes)...)
 		out.Cover(fmt.Sprintf("gater.call.ev%d.res%d", c.ev, res))
+		if c.ev == 1 {
+			out.Cover(fmt.Sprintf("gater.write-fails.kind%d.opk%d", c.r.kind, c.opk))
+		}
 	}
 	out.Cover("gater.cases")
 	out.Case(line)
@@ -931,11 +959,13 @@ func TestVerifC10Replay(t *testing.T) {
 			c.r = c10Rule{kind: 2, n: &net.IPNet{IP: c10DecIP(f[3:8]), Mask: net.CIDRMask(int(f[9]), bits)}}
 		}
 		calls = append(calls, c)
-		pos += 11 + np
-		for l, w := range []int{1, 5, 7} { // skip the three lists
-			_ = l
-			cnt := int(in[pos])
-			pos += 1 + cnt*w
+		pos += 11
+		for v := 0; v < 2; v++ { // skip the two views (running, reopened)
+			pos += np
+			for _, w := range []int{1, 5, 7} { // the three lists
+				cnt := int(in[pos])
+				pos += 1 + cnt*w
+			}
 		}
 	}
 	c10RunCase(t, out, probes, calls)
